@@ -146,6 +146,14 @@ func (c *Checker) afterPure(line, op string, args []string, obs string) {
 		if strings.HasPrefix(obs, "registry ") && obs != want {
 			c.Report("C18", line, "registry is `"+obs+"`, expected `"+want+"`")
 		}
+	case "buildseq":
+		// C12: a builder read always shows what the builder holds NOW - function, then every element in order, each
+		// preceded by '@' - whatever was read before (the spec is the element list itself)
+		c.enc = encMemo{}
+		want, ok := buildSeqSpec(args)
+		if ok && strings.HasPrefix(obs, "ok") && !strings.EqualFold(strings.TrimSpace(strings.TrimPrefix(obs, "ok")), want) {
+			c.Report("C12", line, "builder reads are `"+obs+"`, the calls made say `ok "+want+"` (a read must reflect every call made before it, SetLast and Clear included)")
+		}
 	case "build", "enccall", "buildstorage":
 		// C12: parse(build(x)) = x on the stated domains; remembered until the next parse op
 		c.enc = encMemo{}
@@ -192,6 +200,43 @@ func (c *Checker) afterPure(line, op string, args []string, obs string) {
 		if i < 0 {
 			c.Report("C20", line, "mergeseq answer carries no u= field: "+obs)
 			return
+		}
+		// the merge laws on the result (A = addr;nonce;balance;delta;storage;code;codeMeta;deployer;transfers;gasUsed):
+		// highest nonce, and the transfer list is the receiver's own list followed by the surplus of each merged-in list
+		if res := strings.Split(obs[3:i], ";"); len(res) == 10 && len(args) >= 1 {
+			okIn := true
+			var trs []string
+			maxNonce := uint64(0)
+			for k, a := range args {
+				f := strings.Split(a, ";")
+				if len(f) != 10 {
+					okIn = false
+					break
+				}
+				n, err := strconv.ParseUint(f[1], 10, 64)
+				if err != nil {
+					okIn = false
+					break
+				}
+				if k == 0 || n > maxNonce {
+					maxNonce = n
+				}
+				var cur []string
+				if f[8] != "" {
+					cur = strings.Split(f[8], ".")
+				}
+				if len(cur) > len(trs) {
+					trs = append(trs, cur[len(trs):]...)
+				}
+			}
+			if okIn {
+				if got := res[8]; got != strings.Join(trs, ".") {
+					c.Report("C20", line, "merged transfer list is `"+got+"`, the receiver's own transfers followed by the new ones of each merged-in account are `"+strings.Join(trs, ".")+"`")
+				}
+				if res[1] != strconv.FormatUint(maxNonce, 10) {
+					c.Report("C20", line, "merged nonce is "+res[1]+", the highest nonce is "+strconv.FormatUint(maxNonce, 10))
+				}
+			}
 		}
 		if bits := obs[i+3:]; strings.Trim(bits, "1") != "" {
 			c.Report("C20", line, "a merged-in account (or the memory behind its transfer slice) was mutated by MergeOutputAccounts: u="+bits)
@@ -393,4 +438,75 @@ func wantEncoding(op, in string, nargs int) (string, bool) {
 		return hex.EncodeToString(out), true
 	}
 	return "", false
+}
+
+// buildSeqSpec replays the builder calls of a `buildseq` line on the obvious specification (function name + element list).
+func buildSeqSpec(steps []string) (string, bool) {
+	fn := ""
+	var els []string
+	var reads []string
+	tok := func(x string) string {
+		if x == "" {
+			return "-"
+		}
+		return hex.EncodeToString([]byte(x))
+	}
+	for _, st := range steps {
+		kind, arg := st, ""
+		if i := strings.IndexByte(st, ':'); i >= 0 {
+			kind, arg = st[:i], st[i+1:]
+		}
+		var val []byte
+		if kind == "f" || kind == "b" || kind == "y" || kind == "s" || kind == "l" {
+			v, ok := unhexOK(arg)
+			if !ok {
+				return "", false
+			}
+			val = v
+		}
+		switch kind {
+		case "f":
+			fn = string(val)
+		case "b", "s":
+			els = append(els, hex.EncodeToString(val))
+		case "y":
+			if len(val) != 1 {
+				return "", false
+			}
+			els = append(els, hex.EncodeToString(val))
+		case "i":
+			n, ok := new(big.Int).SetString(arg, 10)
+			if !ok {
+				return "", false
+			}
+			els = append(els, hex.EncodeToString(new(big.Int).Abs(n).Bytes()))
+		case "t":
+			els = append(els, hex.EncodeToString([]byte("true")))
+		case "x":
+			els = append(els, hex.EncodeToString([]byte("false")))
+		case "c":
+			fn, els = "", nil
+		case "l":
+			if len(els) == 0 {
+				els = []string{string(val)}
+			} else {
+				els[len(els)-1] = string(val)
+			}
+		case "r":
+			d := fn
+			for _, e := range els {
+				d += "@" + e
+			}
+			reads = append(reads, tok(d))
+		case "g":
+			if len(els) == 0 {
+				reads = append(reads, "-")
+			} else {
+				reads = append(reads, tok(els[len(els)-1]))
+			}
+		default:
+			return "", false
+		}
+	}
+	return strings.Join(reads, ","), true
 }
